@@ -20,7 +20,7 @@ META = {
                         '2-3 modes of 2 functions (monomials, sin, cos, identity), 1-2 snapshots, ranks {1,2}', 'thorough': 'dimension 3, 3 snapshots'},
     'outside': ['equality of the eigenvalues with dense gEDMD (both reduce the same operator)', 'rounding', 'threshold > 0 in the HOSVD'],
     'assumptions': ['sin/cos uninterpreted with sin\'=cos, cos\'=-sin'],
-    'tv_per_scenario': {'quick': 0, 'thorough': 0},
+    'tv_per_scenario': {'quick': 1000, 'thorough': 1000},
 }
 
 MIX2 = [[['id', 'mono2'], ['const', 'id']], [['sin', 'id'], ['id', 'cos']]]
